@@ -81,6 +81,7 @@ def replays_of(f):
 
 OPEN_TAKE = re.compile(r"take\s+\d+\.\.(?!\d)")
 INTERVAL_LIT = re.compile(r"\b\d+(years|months|weeks|days|hours|minutes|seconds|milliseconds|microseconds)\b")
+SORT_IN_SETOP_ARG = re.compile(r"\b(append|remove|intersect)\s*\((?:[^()]|\([^()]*\))*\bsort\b")
 GENERIC_NOT_SQLITE = re.compile(r"EXCEPT ALL|INTERSECT ALL|(UNION|EXCEPT|INTERSECT) DISTINCT|\b(DATE|TIME|TIMESTAMP) ''|\bINTERVAL\b")
 
 
@@ -123,6 +124,20 @@ def classify(case):
             return "F27-offset-without-limit"
     if d == "mssql" and kind == "dialect" and cons == [3, 0, 0] and OPEN_TAKE.search(src) and "OFFSET" in code:
         return "C07-N7-mssql-offset-without-order-by"
+    # N12: a sort in effect inside an operand of append / remove / intersect / loop whose key the operand's select does not keep:
+    # the SELECT of that operand alone gets the sort column added.  Shapes: the FIRST operand (the loop's initial query) is
+    # the WIDER one (F28 is the opposite: the first operand is pruned, it is the narrower one), or the argument pipeline of
+    # the set operation itself contains a sort (then the second operand, read through `SELECT * FROM cte`, is the wider one)
+    if re.search(r"\bsort\b", src) and re.search(r"\b(append|remove|intersect|loop)\b", src):
+        ar = diag if kind == "scope" else (case.get("scope_diag") or [0, 0, 0, 0])
+        arity_symptom = (kind == "scope" and diag[0] == 8) or (kind == "sqlite" and "same number of result columns" in msg and ar[0] == 8)
+        if arity_symptom and re.search(r"\b(UNION|EXCEPT|INTERSECT)\b", code):
+            if ar[1] > ar[2] or (ar[1] < ar[2] and SORT_IN_SETOP_ARG.search(src)):
+                return "C07-N12-sort-column-widens-operand"
+    # N13: sql.bigquery reads backslash escapes but its string literals are emitted with single backslashes (fix d2c1667
+    # repaired mysql, clickhouse, snowflake, redshift): a literal ending in a backslash swallows its closing quote
+    if d == "bigquery" and "\\" in src and "\\'" in sql and kind in ("parse", "tokens", "scope"):
+        return "C07-N13-bigquery-backslash-literal"
     # F28: one operand of a set operation pruned, the other not
     if (re.search(r"\b(append|remove|intersect)\b", src) or ("join" in src and re.search(r"\b(INTERSECT|EXCEPT)\b", code))) \
             and ((kind in ("sqlite",) and "same number of result columns" in msg) or (kind == "scope" and diag[0] == 8)):
@@ -150,12 +165,14 @@ def classify(case):
     # N4: generated names starting with `_` are not regular identifiers of standard SQL
     if d == "ansi" and kind == "parse" and re.search(r"(?<![A-Za-z0-9_])_[A-Za-z0-9_]+", code) and case.get("parses_when_underscore_idents_quoted"):
         return "C07-N4-ansi-underscore-identifier"
-    # N10: join over "all columns" of wildcard relations: `a.* = b.*`
+    # N10: join over "all columns" of wildcard relations: `a.* = b.*` (an intersect whose result columns are not used).
+    # The other half of the old class -- a known operand with >= 2 columns zipped with a wildcard, `ON u.a = b.*` -- was
+    # repaired by f0c772e (compile error): it is no longer classified, a recurrence is a VIOLATION.
     if re.search(r"\b(intersect|remove)\b", src):
         both_stars = bool(re.search(r"\.\* = \w+\.\*", code)) or '."*" = ' in sql and sql.count('"*"') >= 2 and bool(re.search(r'"\*" = "\w+"\."\*"', sql))
         one_star = bool(re.search(r"\w+\.\* = |= \w+\.\*", code)) or '"*"' in sql
-        unused_result = bool(re.search(r"\bintersect\b[\s\S]*\baggregate\b", src))     # (a): nothing of the intersect's columns is used afterwards
-        if both_stars or (one_star and ("setop_cols2" in (case.get("tags") or []) or unused_result)):
+        unused_result = bool(re.search(r"\bintersect\b[\s\S]*\baggregate\b", src))     # nothing of the intersect's columns is used afterwards
+        if (both_stars or one_star) and unused_result:
             if kind in ("parse", "sqlite") or (kind == "scope" and diag[0] in (4, 5)):
                 return "C07-N10-star-in-join-condition"
     # N5: BigQuery has no EXCEPT ALL / INTERSECT ALL
